@@ -493,6 +493,12 @@ func (w *worker) run(bi int, beh []map[string]any, res *vh.Result) {
 		if (act == "UnsubProceed" || act == "Leave") && pendingJoin(beh[si-1]) {
 			tags["unsubscribe-overtakes-pending-join"] = true
 		}
+		if thr == "TK" && act == "TickAdd" {
+			e := vh.Map(beh[si-1]["entry"])
+			if vh.Int(e["gen"]) != 0 && !vh.Bool(e["sub"]) {
+				tags["tick-add-lands-on-reservation"] = true
+			}
+		}
 		if thr == "SS" && act == "Push" && vh.Str(beh[si-1]["status"]) == "closed" {
 			tags["server-subscribe-push-after-close"] = true
 		}
@@ -704,6 +710,11 @@ func (w *worker) run(bi int, beh []map[string]any, res *vh.Result) {
 		if rp.Closed && rp.Pres {
 			fr("C05", "presence-after-close", "presence entry survives the closed connection")
 		}
+		if !rp.Closed && rp.Subscribed != rp.Pres {
+			// the reference keeps presence and subscription state together in this schedule (the model state that the
+			// real code left had them equal or is about to repair them); the real code settled with them apart
+			fr("C06", fmt.Sprintf("subscribed=%v,presence=%v", rp.Subscribed, rp.Pres), fmt.Sprintf("settled: subscribed=%v but presence contains the connection=%v", rp.Subscribed, rp.Pres))
+		}
 		j, l := 0, 0
 		for _, k := range rp.JL {
 			if k == "join" {
@@ -770,6 +781,13 @@ func (w *worker) run(bi int, beh []map[string]any, res *vh.Result) {
 		viol := func(prop, sig, what string) {
 			if prop == "C07" {
 				sig += tagl
+			}
+			if prop == "C05" && sig == "presence-after-close" {
+				if tags["tick-add-lands-on-reservation"] {
+					sig += "+tick-add-lands-on-reservation"
+				} else {
+					sig += "+plain"
+				}
 			}
 			res.Violate(prop, sig, fmt.Sprintf("%s (ops %s async %v steps %v)", what, ops, r.async, steps), map[string]any{"ops": st0["ops"], "async": r.async, "steps": steps, "real": rp, "frames": fr})
 		}
